@@ -24,6 +24,7 @@ type dinst struct {
 	appsByOp  map[string][]*Term
 	inR       map[*Term]bool
 	skolems   map[*Sort][]*Term
+	scalars   map[*Sort][]*Term // closed variables / reads per scalar sort (for bound variables without a trigger)
 	done      map[string]bool
 	budget    int
 	out       []*Term
@@ -88,6 +89,14 @@ func (d *dinst) addGround(t *Term) int {
 			return
 		}
 		d.inR[t] = true
+		if len(t.fb) == 0 && (t.S.K == KBV || t.S.K == KInt) && (t.Op == "var" || t.Op == "select") && len(d.scalars[t.S]) < 16 {
+			d.scalars[t.S] = append(d.scalars[t.S], t)
+		}
+		if len(t.fb) == 0 && t.Op == "store" {
+			// a write is as relevant as a read of the written cell
+			d.selBySort[t.S] = append(d.selBySort[t.S], t)
+			n++
+		}
 		if len(t.fb) == 0 {
 			if t.Op == "select" {
 				d.selBySort[t.Args[0].S] = append(d.selBySort[t.Args[0].S], t)
@@ -218,6 +227,12 @@ func (d *dinst) candidates(b *Term, trigs []trig, limit int) []*Term {
 	for _, s := range d.skolems[b.S] {
 		add(s)
 	}
+	if len(trigs) == 0 {
+		// no pattern determines this variable: the variables and reads of its sort near the goal
+		for _, s := range d.scalars[b.S] {
+			add(s)
+		}
+	}
 	hasSel := false
 	for _, tr := range trigs {
 		if tr.sel {
@@ -235,7 +250,11 @@ func (d *dinst) candidates(b *Term, trigs []trig, limit int) []*Term {
 				if len(out) >= limit {
 					break
 				}
-				if !d.related(tr.arr, g.Args[0]) {
+				ga := g.Args[0]
+				if g.Op == "store" {
+					ga = g
+				}
+				if !d.related(tr.arr, ga) {
 					continue
 				}
 				if v, ok := solveFor(tr.idx, b, g.Args[1]); ok {
@@ -367,11 +386,28 @@ func (q *Query) DirectedStages(rounds int) []*Query {
 	}
 	var sks []*Term
 	goal := skolemize(g0, &sks)
+	seed := goal
 	if hasQuantifier(goal) {
-		return nil
+		// A => (exists k. B): the antecedents become hypotheses and so does the negated conclusion  forall k. not B
+		g := goal
+		var ante []*Term
+		for g.Op == "=>" {
+			ante = append(ante, g.Args[0])
+			g = g.Args[1]
+		}
+		if g.Op == "not" && g.Args[0].Op == "forall" && !hasQuantifier(g.Args[0].Args[0]) {
+			hyps0 = append(append(append([]*Term{}, hyps0...), ante...), g.Args[0])
+			goal = False
+			seed = And(append(append([]*Term{}, ante...), g.Args[0])...)
+		} else {
+			return nil
+		}
 	}
 	var qhyps, qf []*Term
 	for _, h := range hyps0 {
+		if hasQuantifier(h) {
+			h = posSkolem(h, true, &sks)
+		}
 		if hasQuantifier(h) {
 			qhyps = append(qhyps, h)
 			if g := stripQuant(h); g.Op != "true" {
@@ -385,13 +421,13 @@ func (q *Query) DirectedStages(rounds int) []*Query {
 		return nil
 	}
 	d := &dinst{leafCache: map[*Term]map[*Term]bool{}, selBySort: map[*Sort][]*Term{}, appsByOp: map[string][]*Term{},
-		inR: map[*Term]bool{}, skolems: map[*Sort][]*Term{}, done: map[string]bool{}, budget: 6000}
+		inR: map[*Term]bool{}, skolems: map[*Sort][]*Term{}, scalars: map[*Sort][]*Term{}, done: map[string]bool{}, budget: 6000}
 	for _, s := range sks {
 		d.skolems[s.S] = append(d.skolems[s.S], s)
 	}
-	d.addGround(goal)
+	d.addGround(seed)
 	// quantifier-free hypotheses near the goal contribute their reads too
-	near := nearHyps(goal, qf, 2)
+	near := nearHyps(seed, qf, 2)
 	for _, h := range near {
 		d.addGround(h)
 	}
@@ -407,6 +443,14 @@ func (q *Query) DirectedStages(rounds int) []*Query {
 		}
 		var fr []*Term
 		for _, f := range fresh {
+			if hasQuantifier(f) {
+				// existentials of an instance get fresh constants (which later rounds can match against)
+				var nsk []*Term
+				f = posSkolem(f, true, &nsk)
+				for _, c := range nsk {
+					d.skolems[c.S] = append(d.skolems[c.S], c)
+				}
+			}
 			if !uniq[f] {
 				uniq[f] = true
 				fr = append(fr, f)
@@ -492,4 +536,39 @@ func nearHyps(goal *Term, hyps []*Term, rounds int) []*Term {
 		}
 	}
 	return out
+}
+
+// posSkolem replaces existential quantifiers of a closed hypothesis (universal quantifiers in negative position) by
+// fresh constants. pol is the polarity of t.
+func posSkolem(t *Term, pol bool, sks *[]*Term) *Term {
+	if !hasQuantifier(t) {
+		return t
+	}
+	switch t.Op {
+	case "not":
+		return Not(posSkolem(t.Args[0], !pol, sks))
+	case "and", "or":
+		args := make([]*Term, len(t.Args))
+		for i, a := range t.Args {
+			args[i] = posSkolem(a, pol, sks)
+		}
+		if t.Op == "and" {
+			return And(args...)
+		}
+		return Or(args...)
+	case "=>":
+		return Implies(posSkolem(t.Args[0], !pol, sks), posSkolem(t.Args[1], pol, sks))
+	case "forall":
+		if pol || len(t.fb) > 0 {
+			return t
+		}
+		m := map[*Term]*Term{}
+		for _, b := range t.Bound {
+			c := FreshVar("ex_"+b.Name, b.S)
+			m[b] = c
+			*sks = append(*sks, c)
+		}
+		return posSkolem(Subst(t.Args[0], m), pol, sks)
+	}
+	return t
 }
